@@ -30,15 +30,15 @@ type req struct {
 	payload []byte
 	msg     p9p.Message
 	// bookkeeping from the client's point of view
-	class      string // "normal", "dup", "flush", "grey"
-	dispatched bool
-	released   bool // handler released by the schedule
-	resBytes   []byte
-	victim     *req // flush: the request it was aimed at (client view), may be nil
-	flushedBy  *req // set on the victim
-	ackTaken   bool // flush: its reply has been handed to conn.Write
-	replies    int
-	replyAfterAck bool
+	class           string // "normal", "dup", "flush", "grey"
+	dispatched      bool
+	released        bool // handler released by the schedule
+	resBytes        []byte
+	victim          *req // flush: the request it was aimed at (client view), may be nil
+	flushedBy       *req // set on the victim
+	ackTaken        bool // flush: its reply has been handed to conn.Write
+	replies         int
+	replyAfterAck   bool
 	inFlightAtFault bool
 	filler          bool // request of a (bulk ...) step, answered at once by the auto-completing handler
 	dispCount       int
@@ -50,25 +50,26 @@ type failure struct {
 }
 
 type runner struct {
-	rng   *prng.R
-	w     *world
-	gated bool
-	reqs  []*req
-	steps []sx.S
-	fails []failure
-	label []string
-	faulted   bool
-	faultKind string
-	nonce     uint64
-	hang      bool
-	profile   string
-	takesSeen int
-	cursor    int // items consumed
-	maxDepth  int
+	rng                                   *prng.R
+	w                                     *world
+	gated                                 bool
+	reqs                                  []*req
+	steps                                 []sx.S
+	fails                                 []failure
+	label                                 []string
+	faulted                               bool
+	faultKind                             string
+	nonce                                 uint64
+	hang                                  bool
+	profile                               string
+	takesSeen                             int
+	cursor                                int // items consumed
+	maxDepth                              int
 	nFlushRunning, nReuse, nDup, nLateFin int
-	nFillers     int
-	sess         bool // ServeConn serves p9p.SSession(scripted Session) instead of the gate Handler
-	shutdownEOF  bool // end the schedule by a peer close (long schedules: a context cancel would cancel 65536 contexts)
+	nFillers                              int
+	sess                                  bool // ServeConn serves p9p.SSession(scripted Session) instead of the gate Handler
+	shutdownNetErr                        bool // end the schedule by a read error that is a net.Error reporting neither Timeout nor Temporary
+	shutdownEOF                           bool // end the schedule by a peer close (long schedules: a context cancel would cancel 65536 contexts)
 }
 
 func (r *runner) fail(key, what string) {
@@ -695,6 +696,22 @@ func (r *runner) connerr(eof bool) {
 		r.w.cn.failRead(errReset)
 	}
 	r.observe(sx.L(sx.Sym("connerr")), "connerr", nil)
+}
+
+// a read error that is a net.Error.  Timeout() || Temporary(): conn.read retries, nothing is shut down and
+// the conn goes on delivering (the error is returned by `times` consecutive Reads); neither: fatal like any
+// other read error (the conn keeps returning it).
+func (r *runner) readNetErr(timeout, temporary bool, times int) {
+	b := func(x bool) sx.S { return sx.Bool(x) }
+	action := sx.L(sx.Sym("rerr"), sx.Bool(true), b(timeout), b(temporary))
+	if timeout || temporary {
+		r.w.cn.failReadOnce(netErr{timeout, temporary}, times)
+		r.observe(action, fmt.Sprintf("read-neterr-retried:%v/%v", timeout, temporary), nil)
+		return
+	}
+	r.markFault("read-error-net")
+	r.w.cn.failRead(netErr{false, false})
+	r.observe(action, "read-neterr-fatal", nil)
 }
 
 func (r *runner) ctxCancel() {
